@@ -348,7 +348,7 @@ def main(argv):
         m2 = re.search(r'\* Axioms:\s*(.*?)\n\s*\n', out2, re.S)
         ax = m2.group(1).strip() if m2 else 'unparsed'
         coqchk = dict(rc=rc2, axioms=ax,
-                      type_in_type='type-in-type: <none>' in out2, summary=out2[-600:] if rc2 or ax != '<none>' else 'ok')
+                      relying_on_type_in_type_none='type-in-type: <none>' in out2, summary=out2[-600:] if rc2 or ax != '<none>' else 'ok')
         if rc2 != 0 or ax != '<none>':
             proof_ok = False
             pr['log'] = (pr.get('log') or '') + '\ncoqchk: ' + out2[-800:]
